@@ -43,22 +43,8 @@ def headers_rule(F, rep, M):
 
 def buffer_rule(F, rep):
     """the buffer handed to the generated readers has the table-declared size and is filled by read_exact"""
-    b = F.body(events.PARSE_EVENT)
-    size_ok = buf_ok = exact_ok = False
-    for n in tir.walk(b["tir"]["value"]):
-        if n.get("k") == "Let" and n["pat"].get("k") == "Bind" and n["pat"].get("name") == "size":
-            txt = tir.pretty(n["init"])
-            size_ok = "state.payload_sizes[(code as usize)]" in txt and ".get()" in txt
-        if n.get("k") == "Let" and n["pat"].get("k") == "Bind" and n["pat"].get("name") == "buf":
-            i = n["init"]
-            if tir.in_macro(i, "vec"):
-                locs = [x.get("name") for x in tir.walk(i) if x.get("k") == "Path" and x.get("res") == "local"]
-                buf_ok = locs == ["size"]
-        if n.get("k") == "MethodCall" and n["method"] == "read_exact" and L.local_name(n["recv"]) == "r":
-            a = tir.strip(n["args"][0])
-            exact_ok = exact_ok or L.local_name(a) == "buf"
-    rep.ob("H.buffer", size_ok and buf_ok and exact_ok, events.PARSE_EVENT, "buffer",
-           "payload buffer must be vec![0; payload_sizes[code]] filled by read_exact (size_ok=%s buf_ok=%s exact_ok=%s)" % (size_ok, buf_ok, exact_ok))
+    d = events.payload_buffer(F, events.PARSE_EVENT)
+    rep.ob("H.buffer", d["ok"], events.PARSE_EVENT, "buffer", "payload buffer must be vec![0; payload_sizes[code]] filled by read_exact: %s" % "; ".join(d["problems"]), sample={"table": d["table"]})
 
 
 def controls(rep, M, hdrs):
